@@ -956,7 +956,7 @@ def run(ctx: common.Ctx):
         from . import c14_float
     except ImportError:
         c14_float = None
-    if c14_float is not None:
+    if c14_float is not None and os.environ.get("VERIF_C14_SKIP_FLOAT") != "1":   # (development switch)
         c14_float.run_float(ctx, drivers)
 
 
